@@ -193,6 +193,8 @@ func init() {
 				kList = 9
 			}
 			return []engine.Phase{
+				respellOverlapPhase(tier),
+				longIDListPhase("C05", tier),
 				{Name: "ext-pairs", ShardDepth: 2, Bounds: engine.Bounds{InputDev: -1},
 					Rule: "for each world (root + all descendants 2 levels down on each axis independently + twin across f=-1|0 + parents): all ordered pairs through CheckExtendedSpatialIdsOverlap vs ref.Overlap; non-trivial = distinct pairs at different zooms on at least one axis (counted separately in counters for true and false answers)",
 					Body: func(c *engine.Ctx) {
